@@ -31,7 +31,7 @@ MUST_REACH = ["gmres:lucky_breakdown", "gmres:lu_fallback", "stagnation:cycled_p
 
 EPS = refq.EPS
 CLASSES = ["generic", "herm_def", "herm_indef", "unitary", "scaled_identity", "identity_rank1", "identity_rank2", "upper_tri",
-           "lower_tri", "distinct_eigs", "quat_scaled_identity", "real_diagonal", "clustered_eigs", "near_identity", "jordan_upper", "jordan_lower"]
+           "lower_tri", "distinct_eigs", "quat_scaled_identity", "real_diagonal", "clustered_eigs", "near_identity", "jordan_upper", "jordan_lower", "weighted_cyclic_shift", "hollow_hermitian"]
 
 
 # --------------------------------------------------------------------------------------
@@ -161,6 +161,24 @@ def make_matrix(rng, cls, n, d=None):
             v = rng.standard_normal(4)
             c[i, i] = v / np.linalg.norm(v) * (1.0 + rng.random())
         A = refq.qa(c)
+    elif cls in ("weighted_cyclic_shift", "hollow_hermitian"):
+        # v^H A v = 0 EXACTLY for unit-vector right-hand sides (a weighted cyclic shift / exchange matrix; a Hermitian matrix with zero diagonal):
+        # the first Arnoldi step makes no progress and the projected Hessenberg matrix starts with an exact zero on its diagonal
+        if cls == "weighted_cyclic_shift" or n < 2:
+            c = np.zeros((n, n, 4))
+            u = refq.fa(refq.unit_quats(rng, n)) * (1.0 + rng.random((n, 1)))
+            for i in range(n):
+                c[(i + 1) % n, i] = u[i]
+            A = refq.qa(c)
+        else:
+            B = refq.randq(rng, n, n)
+            c = refq.fa(refq.symmetrize(B + refq.herm(B))).copy()
+            c[np.arange(n), np.arange(n)] = 0.0
+            A = refq.qa(c)
+            if embed.cond(A) > 1e4:
+                A = A + refq.qa(np.roll(np.eye(n), 1, axis=0)[..., None] * np.array([0.0, 0.0, 0.7, 0.0]))       # still hollow for n >= 2... keep well conditioned
+                cc = refq.fa(A).copy(); cc[np.arange(n), np.arange(n)] = 0.0
+                A = refq.qa(cc)
     elif cls in ("jordan_upper", "jordan_lower"):
         # ONE Jordan block: a repeated NON-REAL quaternion on the diagonal and generic quaternions next to it (defective: a single eigen-
         # direction).  With the right-hand side "defective_eig_residual" (rhs_list) the residual left by the first cycle is, up to round-off,
